@@ -1490,8 +1490,227 @@ mod stack {
     }
 }
 
+
+// ---------------------------------------------------------------- settings (C12)
+// Each scenario runs the REAL start-up sequence (set_default_values(); bootstrap(); then the readers) in a child process of this
+// binary: its environment, its command line and the rws.config.toml in its working directory are the three sources.  The
+// expected values come from the table of the documentation (kept here independently of the code and of the contracts).
+mod settings {
+    use super::*;
+    use std::process::Command;
+
+    // variable, short, long, default, TOML table, TOML key, kind (t = text, n = number, l = list)
+    pub const T: [(&str, &str, &str, &str, &str, &str, char); 11] = [
+        ("RWS_CONFIG_IP", "-i", "--ip", "127.0.0.1", "", "ip", 't'),
+        ("RWS_CONFIG_PORT", "-p", "--port", "7878", "", "port", 'n'),
+        ("RWS_CONFIG_THREAD_COUNT", "-t", "--thread-count", "200", "", "thread_count", 'n'),
+        ("RWS_CONFIG_CORS_ALLOW_ALL", "-a", "--cors-allow-all", "true", "cors", "allow_all", 't'),
+        ("RWS_CONFIG_CORS_ALLOW_ORIGINS", "-o", "--cors-allow-origins", "", "cors", "allow_origins", 'l'),
+        ("RWS_CONFIG_CORS_ALLOW_METHODS", "-m", "--cors-allow-methods", "", "cors", "allow_methods", 'l'),
+        ("RWS_CONFIG_CORS_ALLOW_HEADERS", "-h", "--cors-allow-headers", "", "cors", "allow_headers", 'l'),
+        ("RWS_CONFIG_CORS_ALLOW_CREDENTIALS", "-c", "--cors-allow-credentials", "", "cors", "allow_credentials", 't'),
+        ("RWS_CONFIG_CORS_EXPOSE_HEADERS", "-e", "--cors-expose-headers", "", "cors", "expose_headers", 'l'),
+        ("RWS_CONFIG_CORS_MAX_AGE", "-g", "--cors-max-age", "86400", "cors", "max_age", 'n'),
+        ("RWS_CONFIG_REQUEST_ALLOCATION_SIZE_IN_BYTES", "-r", "--request-allocation-size-in-bytes", "10000", "", "request-allocation-size-in-bytes", 'n'),
+    ];
+
+    // the child: the real start-up code, then one line per setting and one line for the readers
+    pub fn probe() {
+        if std::env::args().any(|a| a == "@setup") {
+            // the real Server::setup: what the listener is bound to and how many workers the pool has
+            match crate::server::Server::setup() {
+                Ok((listener, _pool)) => {
+                    let threads = std::fs::read_to_string("/proc/self/status").ok()
+                        .and_then(|t| t.lines().find(|l| l.starts_with("Threads:")).map(|l| l[8..].trim().to_string())).unwrap_or_default();
+                    println!("@@setup ip={} threads={}", listener.local_addr().map(|a| a.ip().to_string()).unwrap_or_default(), threads);
+                }
+                Err(e) => println!("@@setup failed {}", e),
+            }
+            return;
+        }
+        crate::entry_point::set_default_values();
+        crate::entry_point::bootstrap();
+        for t in T.iter() {
+            match std::env::var(t.0) { Ok(v) => println!("@@{}={}", t.0, v), Err(_) => println!("@@{} UNSET", t.0) }
+        }
+        let (ip, port, threads) = crate::entry_point::get_ip_port_thread_count();
+        let alloc = crate::entry_point::get_request_allocation_size();
+        println!("@@readers ip={} port={} threads={} alloc={}", ip, port, threads, alloc);
+    }
+
+    #[derive(Clone)]
+    pub struct Scenario { pub name: String, pub env: Vec<(usize, String)>, pub file: Option<String>, pub file_vals: Vec<(usize, String)>, pub cli: Vec<String>, pub cli_vals: Vec<(usize, String)> }
+
+    fn val(i: usize, src: usize) -> String {
+        match T[i].6 {
+            'n' => format!("{}", 1000 * (src + 1) + i),
+            'l' => format!("v{}s{}-a,v{}s{}-b", i, src, i, src),
+            _ => if i == 0 { format!("10.{}.0.{}", src, i + 1) } else { format!("text{}s{}", i, src) },
+        }
+    }
+    // one TOML line for setting i in one of the documented shapes
+    fn toml_line(i: usize, v: &str, shape: usize) -> String {
+        let k = T[i].5;
+        let list: Vec<&str> = v.split(',').collect();
+        match (T[i].6, shape % 6) {
+            ('l', 0) => format!("{} = [{}]", k, list.iter().map(|x| format!("\"{}\"", x)).collect::<Vec<_>>().join(", ")),
+            ('l', 1) => format!("{} = [{}] # a comment", k, list.iter().map(|x| format!("'{}'", x)).collect::<Vec<_>>().join(",")),
+            ('l', 2) => format!("  {}   =   [ {} ]  ", k, list.iter().map(|x| format!("\"{}\"", x)).collect::<Vec<_>>().join(" , ")),
+            (_, 0) => format!("{} = {}", k, v),
+            (_, 1) => format!("{} = '{}'", k, v),
+            (_, 2) => format!("{} = \"{}\" # a comment = with signs", k, v),
+            (_, 3) => format!("{}={}", k, v),
+            (_, 4) => format!("   {}    =    {}    ", k, v),
+            _ => format!("{} = \"{}\"", k, v),
+        }
+    }
+    fn toml(vals: &Vec<(usize, String)>, shape: usize, reverse: bool) -> String {
+        let mut top: Vec<String> = vec![]; let mut cors: Vec<String> = vec![];
+        for (i, v) in vals { let l = toml_line(*i, v, shape); if T[*i].4 == "cors" { cors.push(l) } else { top.push(l) } }
+        if reverse { top.reverse(); cors.reverse(); }
+        let mut out = String::from("# configuration\n\n");
+        for l in top { out.push_str(&l); out.push('\n'); if shape % 2 == 1 { out.push('\n'); } }
+        if !cors.is_empty() { out.push_str(if shape % 3 == 0 { "[cors]\n" } else { "\n[cors] # cross origin\n" }); }
+        for l in cors { out.push_str(&l); out.push('\n'); if shape % 2 == 0 { out.push_str("# between\n"); } }
+        out
+    }
+    pub fn scenarios() -> Vec<Scenario> {
+        let mut out = vec![];
+        // every setting x every subset of the three sources x both command line spellings
+        for i in 0..11 { for mask in 0..8usize { for long in [false, true] {
+            if mask & 4 == 0 && long { continue; }
+            let mut s = Scenario { name: format!("setting {} sources {}{}{} {}", T[i].0, if mask & 1 != 0 { "E" } else { "-" }, if mask & 2 != 0 { "F" } else { "-" }, if mask & 4 != 0 { "C" } else { "-" }, if long { "long" } else { "short" }),
+                env: vec![], file: None, file_vals: vec![], cli: vec![], cli_vals: vec![] };
+            if mask & 1 != 0 { s.env.push((i, val(i, 0))); }
+            if mask & 2 != 0 { s.file_vals.push((i, val(i, 1))); s.file = Some(toml(&s.file_vals, i + mask, false)); }
+            if mask & 4 != 0 { s.cli_vals.push((i, val(i, 2))); s.cli.push(format!("{}={}", if long { T[i].2 } else { T[i].1 }, val(i, 2))); }
+            out.push(s);
+        } } }
+        // all settings at once, each from its own mix of sources; every file shape; both key orders
+        for shape in 0..12usize { for reverse in [false, true] {
+            let mut s = Scenario { name: format!("all settings, file shape {}{}", shape, if reverse { " reversed" } else { "" }), env: vec![], file: None, file_vals: vec![], cli: vec![], cli_vals: vec![] };
+            for i in 0..11 {
+                let mask = (i + shape) % 8;
+                if mask & 1 != 0 { s.env.push((i, val(i, 0))); }
+                if mask & 2 != 0 { s.file_vals.push((i, val(i, 1))); }
+                if mask & 4 != 0 { s.cli_vals.push((i, val(i, 2))); s.cli.push(format!("{}={}", if (i + shape) % 2 == 0 { T[i].2 } else { T[i].1 }, val(i, 2))); }
+            }
+            // the whole file: all eleven keys when the shape says so
+            if shape >= 6 { s.file_vals = (0..11).map(|i| (i, val(i, 1))).collect(); }
+            s.file = Some(toml(&s.file_vals, shape, reverse));
+            out.push(s);
+        } }
+        // a word given twice: the last one counts; values holding '=' ; an unknown word is ignored
+        let mut s = Scenario { name: "repeated and odd words".into(), env: vec![], file: None, file_vals: vec![], cli: vec!["--port=1".into(), "-p=2".into(), "--unknown=9".into(), "--ip=a=b".into(), "port=5".into(), "---port=6".into(), "-port=7".into(), "--p=8".into()], cli_vals: vec![(1, "2".into()), (0, "a=b".into())] };
+        out.push(s.clone());
+        // an explicitly empty value is a value: it overrides what a weaker source says
+        for i in [4usize, 5, 6, 8] {
+            let mut e = Scenario { name: format!("empty command line value for {}", T[i].0), env: vec![(i, val(i, 0))], file: None, file_vals: vec![], cli: vec![format!("{}=", T[i].2)], cli_vals: vec![(i, String::new())] };
+            out.push(e.clone());
+            e.name = format!("empty list in the file for {}", T[i].0); e.cli = vec![]; e.cli_vals = vec![]; e.file_vals = vec![(i, String::new())];
+            e.file = Some(format!("[cors]\n{} = []\n", T[i].5));
+            out.push(e);
+        }
+        s.name = "no source at all".into(); s.cli = vec![]; s.cli_vals = vec![]; out.push(s.clone());
+        s.name = "unreadable file ignored".into(); s.file = None; s.env = vec![(2, "17".into())]; out.push(s);
+        out
+    }
+    pub fn expected(s: &Scenario) -> Vec<String> {
+        (0..11).map(|i| {
+            if let Some((_, v)) = s.cli_vals.iter().rev().find(|(j, _)| *j == i) { return v.clone(); }
+            if let Some((_, v)) = s.file_vals.iter().rev().find(|(j, _)| *j == i) { return v.clone(); }
+            if let Some((_, v)) = s.env.iter().find(|(j, _)| *j == i) { return v.clone(); }
+            T[i].3.to_string()
+        }).collect()
+    }
+    pub fn run(s: &Scenario, n: usize) -> Result<(Vec<Option<String>>, String), String> {
+        let dir = std::env::temp_dir().join(format!("rws-settings-{}-{}", std::process::id(), n));
+        let _ = std::fs::remove_dir_all(&dir);
+        std::fs::create_dir_all(&dir).map_err(|e| e.to_string())?;
+        if let Some(f) = &s.file { std::fs::write(dir.join("rws.config.toml"), f).map_err(|e| e.to_string())?; }
+        let exe = std::env::current_exe().map_err(|e| e.to_string())?;
+        let mut c = Command::new(exe);
+        c.arg("settingsprobe").args(&s.cli).current_dir(&dir);
+        for t in T.iter() { c.env_remove(t.0); }
+        for (i, v) in &s.env { c.env(T[*i].0, v); }
+        let out = c.output().map_err(|e| e.to_string());
+        let _ = std::fs::remove_dir_all(&dir);
+        let out = out?;
+        if !out.status.success() { return Err(format!("start-up ended with {:?}", out.status)); }
+        let text = String::from_utf8_lossy(&out.stdout).to_string();
+        let mut vals = vec![];
+        for t in T.iter() {
+            let pre = format!("@@{}=", t.0);
+            vals.push(text.lines().find(|l| l.starts_with(&pre)).map(|l| l[pre.len()..].to_string()));
+        }
+        let readers = text.lines().find(|l| l.starts_with("@@readers")).unwrap_or("").to_string();
+        Ok((vals, readers))
+    }
+    fn show(s: &Scenario) -> String {
+        format!("env {:?}; file {:?}; command line {:?}", s.env.iter().map(|(i, v)| format!("{}={}", T[*i].0, v)).collect::<Vec<_>>(), s.file, s.cli)
+    }
+    pub fn check(s: &Scenario, n: usize, h: &mut Hits) {
+        let exp = expected(s);
+        match run(s, n) {
+            Err(e) => h.hit("settings", "c12_startup_failed", "Server::setup", &n.to_string(), &format!("{}: {} [{}]", s.name, e, show(s))),
+            Ok((vals, readers)) => {
+                for i in 0..11 {
+                    let supplied = s.env.iter().any(|(j, _)| *j == i) || s.file_vals.iter().any(|(j, _)| *j == i) || s.cli_vals.iter().any(|(j, _)| *j == i);
+                    if vals[i].as_deref() != Some(exp[i].as_str()) {
+                        let case = if supplied { "c12_precedence" } else { "c12_independent" };
+                        h.hit("settings", case, "bootstrap", &n.to_string(), &format!("{}: {} is {:?}, expected {:?} [{}]", s.name, T[i].0, vals[i], exp[i], show(s)));
+                    }
+                }
+                // the readers hand the running server the same values
+                let num = |v: &str, d: i64| v.parse::<i64>().unwrap_or(d);
+                let want = format!("@@readers ip={} port={} threads={} alloc={}", exp[0], num(&exp[1], 7878), num(&exp[2], 200), num(&exp[10], 10000));
+                if readers != want { h.hit("settings", "c12_reader", "get_ip_port_thread_count", &n.to_string(), &format!("{}: readers say {:?}, expected {:?} [{}]", s.name, readers, want, show(s))); }
+            }
+        }
+    }
+    // Server::setup itself: the listener and the pool are made from the effective values (file over environment here)
+    pub fn check_setup(h: &mut Hits) {
+        let s = Scenario { name: "Server::setup".into(), env: vec![(0, "127.0.0.3".into()), (2, "5".into())], file: Some("ip = '127.0.0.2'\nport = 0\nthread_count = 3\n".into()),
+            file_vals: vec![], cli: vec!["@setup".into()], cli_vals: vec![] };
+        let dir = std::env::temp_dir().join(format!("rws-settings-{}-setup", std::process::id()));
+        let _ = std::fs::remove_dir_all(&dir);
+        if std::fs::create_dir_all(&dir).is_err() { return; }
+        let _ = std::fs::write(dir.join("rws.config.toml"), s.file.clone().unwrap());
+        let exe = match std::env::current_exe() { Ok(e) => e, Err(_) => return };
+        let mut c = Command::new(exe);
+        c.arg("settingsprobe").args(&s.cli).current_dir(&dir);
+        for t in T.iter() { c.env_remove(t.0); }
+        for (i, v) in &s.env { c.env(T[*i].0, v); }
+        let out = c.output();
+        let _ = std::fs::remove_dir_all(&dir);
+        if let Ok(out) = out {
+            let text = String::from_utf8_lossy(&out.stdout).to_string();
+            let line = text.lines().find(|l| l.starts_with("@@setup")).unwrap_or("").to_string();
+            // 3 workers + the main thread
+            if line != "@@setup ip=127.0.0.2 threads=4" && !line.starts_with("@@setup failed") {
+                h.hit("settings", "c12_setup", "Server::setup", "setup", &format!("environment ip 127.0.0.3 / 5 threads, file ip 127.0.0.2 port 0 thread_count 3: {:?}, expected \"@@setup ip=127.0.0.2 threads=4\"", line));
+            }
+        }
+    }
+    pub fn search() -> bool {
+        let mut h = Hits::new();
+        for (n, s) in scenarios().iter().enumerate() { check(s, n, &mut h); }
+        check_setup(&mut h);
+        h.n > 0
+    }
+    pub fn replay(_case: &str, input: &str) -> bool {
+        let mut h = Hits::new();
+        if input == "setup" { check_setup(&mut h); return h.n > 0; }
+        let n: usize = input.parse().unwrap_or(0);
+        let sc = scenarios();
+        if n < sc.len() { check(&sc[n], n, &mut h); }
+        h.n > 0
+    }
+}
+
 pub fn dispatch(args: &[String]) -> i32 {
     if args.len() > 2 && args[0] == "stackprobe" { stack_probe(&args[1], args[2].parse().unwrap_or(1000)); return 0; }
+    if args.len() > 0 && args[0] == "settingsprobe" { settings::probe(); return 0; }
     if args.len() > 0 && args[0] == "probe" { probe::run(); return 0; }
     if args.len() > 0 && args[0] == "probe2" { probe2::run(); return 0; }
     panic::set_hook(Box::new(|_| {}));
@@ -1515,6 +1734,8 @@ pub fn dispatch(args: &[String]) -> i32 {
         ("replay", "statics") => statics::replay(&args[2], &args[3]),
         ("search", "ranges") => statics::search_ranges(1),
         ("search", "mpform") => mpform::search(args.get(2).and_then(|s| s.parse().ok()).unwrap_or(1)),
+        ("search", "settings") => settings::search(),
+        ("replay", "settings") => settings::replay(&args[2], &args[3]),
         ("search", "range") => rng::search(args.get(2).and_then(|s| s.parse().ok()).unwrap_or(1)),
         ("replay", "range") => rng::replay(&args[2], &args[3]),
         _ => { eprintln!("unknown routine"); return 2; }
